@@ -132,6 +132,8 @@ class Workspace:
         os.makedirs(os.path.join(base, "tmp"))
         self.env = dict(os.environ, GROG_ROOT=self.root, HOME=base, GROG_VERIF_TRACE=self.hook, NO_COLOR="1")
         self.env.pop("GROG_VERIF_DELAY", None)
+        if opts.get("delay"):
+            self.env["GROG_VERIF_DELAY"] = opts["delay"]   # "<gate>=<ms>": the hook at that gate sleeps (a slow backend operation)
         self.targets = sorted(header["targets"])
         self.aliases = sorted(header["aliases"])
         self.state = None
